@@ -58,7 +58,7 @@ DEFAULT_L = {(11, 5): 16, (24, 8): 32, (53, 11): 64}  # SecFlt(l) yields these (
 
 
 def budget(tier):
-    return dict(shards=16, examples=100 if tier == "quick" else 1200)
+    return dict(shards=16, examples=100 if tier == "quick" else 1000)
 
 
 # ------------------------------------------------------------------ exact helpers
@@ -213,7 +213,7 @@ def _second_operand(rng, op, x, s, e, zero_ok):
         rel = rng.choice(['same', 'one', 'mid', 'nearf', 'far', 'cancel', 'any'])
         if rel == 'cancel':
             # same exponent, opposite effective sign, shared leading bits
-            w = rng.choice([s, s, s - 1, s + 2])
+            w = min(52, rng.choice([s, s, s - 1, s + 2]))
             xm = abs(x) / (Fraction(2) ** (Ex - w))  # mantissa of x at width w (maybe fractional)
             base = int(xm)
             delta = rng.choice([0, 1, 1, 2, 3, 1 << rng.randrange(w), rng.randrange(1 << max(1, w // 2))])
@@ -235,7 +235,7 @@ def _second_operand(rng, op, x, s, e, zero_ok):
         if rel == 'equal':
             return None  # caller copies x
         if rel == 'close':
-            w = s
+            w = min(52, s)
             xm = abs(x) / (Fraction(2) ** (Ex - w))
             k = rng.choice([1, 2, 7, 8, 9, 15, 16, 17, 18, 20, 31, 32, 33, 40, 64, 100])
             mant = max(1, int(xm) + rng.choice([1, -1]) * k)
@@ -284,7 +284,8 @@ def _gen_record(rng, m, s, e, special):
         # x - x with a small exponent (exact zero with a stale exponent below the type's range), then + - or a
         # comparison with an operand of large exponent
         lo, hi, emin, emax = window(s, e)
-        a = _gen_float(rng, s, _pickE(rng, max(lo, emin + 4), min(hi, emin + s)), width=rng.choice([1, 3, s]))
+        loE = max(lo, emin + 4)
+        a = _gen_float(rng, s, _pickE(rng, loE, max(loE, min(hi, emin + s))), width=rng.choice([1, 3, s]))
         op = rng.choice(['-', '+'])
         b = list(a) if op == '-' else [-a[0], a[1]]
         (ka, kb), (sa, sb) = _kinds(rng, m, 2)
